@@ -24,6 +24,13 @@ operation sequences on ONE entity object (every entity form x every modifiable f
       After the last step the <proto> payload, decoded with the reference field table, must equal the reference
       proto of the NEW spec by value (new value for f, every other set field unchanged).  f is modified through the
       entity's property setter where one exists and through the attribute object.
+media type of the <proto> child (generic MediaMessageProtocolEntity and every typed media entity)
+  O5  received: an incoming node built by the reference (mediatype from: every TYPES_MEDIA value incl. the aliases
+      gif/ptt/url, four values outside it, the empty string, attribute absent) is parsed; reading media_type, str(),
+      toProtocolTreeNode() and forward().toProtocolTreeNode() must not raise, the <proto> child's attributes must come
+      back exactly (absent stays absent) and the payload equal by value.
+      composed: media_type is set through the property (before and after a first serialisation) / given to the
+      generic constructor; the node must carry exactly that value and parse back to it.
 
 Exceptions escaping on valid inputs are violations; the field is blamed by toggling
 each field of the failing spec and re-running (the field whose toggle makes the exception vanish).
@@ -742,6 +749,156 @@ SEQ_TEXT = {"A": "serialise, modify, serialise", "B": "parse incoming node, modi
 
 
 # ---------------------------------------------------------------------------------------------
+# O5: media type of the <proto> child
+# ---------------------------------------------------------------------------------------------
+from yowsup.structs import ProtocolTreeNode
+
+# independent of MediaMessageProtocolEntity.TYPES_MEDIA on purpose (checked against it in run())
+MT_SUPPORTED = ["image", "audio", "video", "contact", "location", "document", "gif", "ptt", "url", "sticker"]
+MT_OTHER = ["livelocation", "vcard", "product", "ü-new-type", ""]
+MT_ABSENT = None
+MT_CLASSES = [("generic", MediaMessageProtocolEntity)] + [(k, TYPED[k][0]) for k in sorted(TYPED)] + [
+    ("extended_text", ExtendedTextMediaMessageProtocolEntity)]
+MT_GENERIC_CONTENTS = sorted(TYPED) + ["extended_text"]
+
+
+def mt_class_of(mt):
+    return "absent" if mt is None else ("supported" if mt in MT_SUPPORTED else "other-string")
+
+
+def mt_items():
+    """(direction, class label, content kind, mediatype, meta name)"""
+    for label, cls_e in MT_CLASSES:
+        kinds = MT_GENERIC_CONTENTS if label == "generic" else [label]
+        for kind in kinds:
+            for mt in MT_SUPPORTED + MT_OTHER + [MT_ABSENT]:
+                for mname in ("in", "in-group"):
+                    yield ("mt", ("received", label, kind, mt, mname))
+                if mt is not None:
+                    yield ("mt", ("composed", label, kind, mt, "out"))
+
+
+def mt_content(kind):
+    c = CLASSES[kind]
+    return P.make_spec(kind, c.optional_names(), ("r", 0), ctx=std_ctx(("r", 0)) if c.ctx else None)
+
+
+def ref_incoming_node(mt, mname, data):
+    """the stanza a peer's media message arrives as, written from the stanza layout, not with the entity classes"""
+    m = METAS[mname]
+    attrs = {"from": m["sender"], "id": m["id"], "t": str(m["timestamp"]), "type": "media", "notify": m["notify"],
+             "offline": "1" if m["offline"] else "0"}
+    if m.get("participant"):
+        attrs["participant"] = m["participant"]
+    pattrs = {} if mt is None else {"mediatype": mt}
+    return ProtocolTreeNode("message", attrs, [ProtocolTreeNode("proto", dict(pattrs), None, data)]), pattrs
+
+
+def run_mt_item(item):
+    direction, label, kind, mt, mname = item
+    cls_e = dict(MT_CLASSES)[label]
+    cname = cls_e.__name__
+    case = {"side": "mt", "item": list(item)}
+    vclass = mt_class_of(mt)
+    spec = mt_content(kind)
+    ref = P.proto_tree(P.build_proto(spec))
+    vs = []
+    execs = [0]
+
+    def bad(what, text, detail=None):
+        vs.append(vio("mediatype", vclass, what, "%s, mediatype %r (%s): %s" % (cname, mt, vclass, text), case, detail, 0, 5))
+
+    def proto_child_ok(node, want_attrs, who, what_prefix):
+        pn = node.getChild("proto")
+        if pn is None:
+            bad(what_prefix + "-changed", "%s has no <proto> child" % who)
+            return
+        if dict(pn.attributes) != want_attrs:
+            if "mediatype" not in want_attrs and pn.attributes.get("mediatype", 0) is None and len(pn.attributes) == 1:
+                bad("absent-written-as-None", "%s: the received <proto> had no mediatype attribute, the re-serialised one has "
+                    "mediatype=None (an attribute whose value is None; the binary encoder cannot encode it)" % who,
+                    {"received": want_attrs, "written": dict(pn.attributes)})
+            else:
+                bad(what_prefix + "-changed", "%s: <proto> attributes are %r, expected %r" % (who, dict(pn.attributes), want_attrs),
+                    {"expected": want_attrs, "written": dict(pn.attributes)})
+        d = P.proto_diff(ref, payload_tree(node))
+        if d:
+            bad("payload-changed", "%s: payload differs at %s" % (who, "/".join(d[0][0])), {"diff": d[0]})
+
+    if direction == "received":
+        data = P.build_proto(spec).SerializeToString()
+        node, pattrs = ref_incoming_node(mt, mname, data)
+        step = "fromProtocolTreeNode"
+        try:
+            execs[0] += 1
+            e = cls_e.fromProtocolTreeNode(node)
+            step = "reading media_type"
+            got = e.media_type
+            if got != mt:
+                bad("received-changed", "media_type reads %r after parsing" % (got,))
+            step = "str()"
+            str(e)
+            step = "toProtocolTreeNode"
+            execs[0] += 1
+            n2 = e.toProtocolTreeNode()
+            proto_child_ok(n2, pattrs, "re-serialised node", "received")
+            for k in ("from", "id", "type", "participant"):
+                if n2[k] != node[k]:
+                    bad("received-changed", "attribute %s of the re-serialised message is %r, was %r" % (k, n2[k], node[k]))
+            step = "forward().toProtocolTreeNode"
+            execs[0] += 1
+            nf = e.forward(TO2).toProtocolTreeNode()
+            proto_child_ok(nf, pattrs, "forwarded node", "received")
+            if nf["to"] != TO2:
+                bad("received-changed", "forwarded node is addressed to %r" % nf["to"])
+            step = "reading media_type after forward"
+            if e.media_type != mt:
+                bad("received-changed", "media_type reads %r after forward()" % (e.media_type,))
+        except Exception as ex:
+            bad("received-raises", "%s raises %s: %s (%s)" % (step, type(ex).__name__, ex, exc_site(ex)), repr(ex))
+        return vs, execs[0]
+
+    # composed
+    a = P.build_attrs(spec)
+
+    def build():
+        if label == "generic":
+            return MediaMessageProtocolEntity("image" if mt != "image" else "video", a, MessageMetaAttributes(**METAS["out"]))
+        return cls_e(P.media_attrs(a, kind), MessageMetaAttributes(**METAS["out"]))
+
+    want = {"mediatype": mt}
+    for variant in ("set-then-serialise", "serialise-set-serialise", "constructor"):
+        if variant == "constructor" and label != "generic":
+            continue
+        step = "constructing"
+        try:
+            if variant == "constructor":
+                e = MediaMessageProtocolEntity(mt, a, MessageMetaAttributes(**METAS["out"]))
+            else:
+                e = build()
+                if variant == "serialise-set-serialise":
+                    execs[0] += 1
+                    e.toProtocolTreeNode()
+                step = "media_type = %r" % mt
+                e.media_type = mt
+            step = "reading media_type"
+            if e.media_type != mt:
+                bad("set-changed", "%s: media_type reads %r after being set to %r" % (variant, e.media_type, mt))
+            step = "toProtocolTreeNode"
+            execs[0] += 1
+            n = e.toProtocolTreeNode()
+            proto_child_ok(n, want, "%s: node" % variant, "set")
+            step = "fromProtocolTreeNode of the produced node"
+            execs[0] += 1
+            back = cls_e.fromProtocolTreeNode(n)
+            if back.media_type != mt:
+                bad("set-changed", "%s: the produced node parses back with media_type %r" % (variant, back.media_type))
+        except Exception as ex:
+            bad("set-raises", "%s: %s raises %s: %s (%s)" % (variant, step, type(ex).__name__, ex, exc_site(ex)), repr(ex))
+    return vs, execs[0]
+
+
+# ---------------------------------------------------------------------------------------------
 # the space
 # ---------------------------------------------------------------------------------------------
 def std_ctx(mode):
@@ -911,10 +1068,10 @@ def proto_specs(tier):
 # ---------------------------------------------------------------------------------------------
 def work(chunk):
     side, specs = chunk
-    if side == "seq":
+    if side in ("seq", "mt"):
         vs, execs = [], 0
         for it in specs:
-            v, n = run_seq_item(it)
+            v, n = (run_seq_item if side == "seq" else run_mt_item)(it)
             vs += v
             execs += n
         return best_per_sig(vs), set(), execs, set(), len(vs), 0
@@ -1019,6 +1176,10 @@ def run(ctx):
     seq_all = [it for _, it in seq_items()]
     for ch in chunks(seq_all, 60):
         jobs.append(("seq", ch))
+    assert sorted(MT_SUPPORTED) == sorted(MediaMessageProtocolEntity.TYPES_MEDIA), "media type alphabet out of date"
+    mt_all = [it for _, it in mt_items()]
+    for ch in chunks(mt_all, 80):
+        jobs.append(("mt", ch))
     jobs = shuffled(jobs, ctx.seed, "c10")
 
     allv = []
@@ -1062,13 +1223,19 @@ def run(ctx):
         "sequence_items": len(seq_all),
         "sequence_items_whole_object": sum(1 for it in seq_all if it[3] == "*"),
         "sequence_forms": len(seq_forms()),
+        "mediatype_items": len(mt_all),
+        "mediatype_items_received": sum(1 for it in mt_all if it[0] == "received"),
+        "mediatype_alphabet": MT_SUPPORTED + MT_OTHER + ["(absent)"],
+        "mediatype_entity_classes": len(MT_CLASSES),
         "bound": "per attribute class: all subsets of optional fields (+context-info bit) x 6 alphabet assignments "
                  "(3 uniform, 3 rotated); context info: all 2^6 field subsets x quoted bit x 6 assignments in each of %d host "
                  "classes; nesting: every chain of host classes up to depth 3 x %d leaf kinds; proto side: all subsets of ALL "
                  "modelled fields x 6 assignments (quick: 4 for the 13-field video message); operation sequences A/B/B2/D on "
                  "one entity for every entity form x 2 base contents x every modifiable field x every other alphabet "
-                 "value / unset, by property setter and by attribute object, and C between 3 contents%s" % (
-                     len(CTX_HOSTS), len(KINDS),
+                 "value / unset, by property setter and by attribute object, and C between 3 contents; media type: %d entity "
+                 "classes (the generic one with each of 8 contents) x 16 mediatype values received (2 envelopes) and 15 "
+                 "composed%s" % (
+                     len(CTX_HOSTS), len(KINDS), len(MT_CLASSES),
                      "" if ctx.quick else "; thorough: independent per-field values (4^n, n<=8; 3x3^n above), extreme values"),
         "violating_cases": failing_cases,
     })
@@ -1092,6 +1259,8 @@ def replay(ctx, case):
         vs, _, _ = run_attr_spec(case["spec"])
     elif side == "proto":
         vs, _, _ = run_proto_spec(case["spec"])
+    elif side == "mt":
+        vs = run_mt_item(tuple(case["item"]))[0]
     elif side == "seq":
         it = case["item"]
         vs = run_seq_item((it[0], it[1], it[2], it[3], it[4]))[0]
